@@ -45,3 +45,56 @@ func vMkWriter(dst io.Writer, server bool, bufLen int, op ws.OpCode) *Writer {
 	}
 	return w
 }
+
+// vSetIntLike / vGetIntLike: write and read an integer field whatever integer type it has (the
+// harnesses keep compiling — and keep checking the arithmetic — if a counter is narrowed).
+func vSetIntLike(dst interface{}, v int) {
+	switch p := dst.(type) {
+	case *int:
+		*p = v
+	case *int64:
+		*p = int64(v)
+	case *int32:
+		*p = int32(v)
+	case *int16:
+		*p = int16(v)
+	case *int8:
+		*p = int8(v)
+	case *uint:
+		*p = uint(v)
+	case *uint64:
+		*p = uint64(v)
+	case *uint32:
+		*p = uint32(v)
+	case *uint16:
+		*p = uint16(v)
+	case *uint8:
+		*p = uint8(v)
+	}
+}
+
+func vGetIntLike(v interface{}) int {
+	switch x := v.(type) {
+	case int:
+		return x
+	case int64:
+		return int(x)
+	case int32:
+		return int(x)
+	case int16:
+		return int(x)
+	case int8:
+		return int(x)
+	case uint:
+		return int(x)
+	case uint64:
+		return int(x)
+	case uint32:
+		return int(x)
+	case uint16:
+		return int(x)
+	case uint8:
+		return int(x)
+	}
+	return -1
+}
